@@ -245,6 +245,17 @@ func gen(r *common.Rng, tier string, w *bufio.Writer) {
 				c.tmin, c.tmax = 3000, 4000
 			}
 		}
+		if c.dyn == 0 && (kind == "plain" || kind == "swing" || kind == "cold") && r.Chance(40) {
+			// fixed threshold with the dynamic threshold's bounds left in the configuration: they must be ignored
+			switch r.Intn(3) {
+			case 0:
+				c.tmin = c.thresh + r.Pick(200, 500)
+			case 1:
+				c.tmax = c.thresh/2 + 1
+			case 2:
+				c.tmin, c.tmax = c.thresh+100, c.thresh+300
+			}
+		}
 		if kind == "cold" || kind == "resetpair" {
 			c.dyn = 0
 			if c.thresh == 0 {
